@@ -55,7 +55,7 @@ Definition repaired_except_pinned : behaviour := mkBehaviour true true true true
 Definition repaired : behaviour := mkBehaviour true true true true true true.
 
 (** SET BY THE COORDINATOR: [code_today] while the defects are open, [repaired_except_pinned] once the fix: commits landed *)
-Definition current_behaviour : behaviour := repaired_except_pinned.
+Definition current_behaviour : behaviour := code_today.
 
 (* ------------------------------------------------------------------------------------------ *)
 (** * Exception classes *)
@@ -404,28 +404,35 @@ Fixpoint all_lt (pos size : list Z) : bool :=
 Definition positionInData (shape position : list Z) : bool :=
   if negb (zlen shape =? zlen position) then false else all_lt position shape.
 
-Fixpoint nd_add (a b : list Z) : list Z :=
-  match a, b with x :: xs, y :: ys => u64_add x y :: nd_add xs ys | _, _ => [] end.
+(** positionAndExtentInData: ranks must agree; per dimension count >= 1, position < size and
+    count <= size - position (written without position + count, which could wrap around) *)
+Fixpoint extent_in_data (shape position count : list Z) : bool :=
+  match shape, position, count with
+  | s :: ss, p :: ps, c :: cs =>
+      negb ((c <? 1) || (p >=? s) || (c >? u64_sub s p)) && extent_in_data ss ps cs
+  | _, _, _ => true
+  end.
+Definition positionAndExtentInData (shape position count : list Z) : bool :=
+  if negb (zlen shape =? zlen position) || negb (zlen shape =? zlen count) then false
+  else extent_in_data shape position count.
 
-(** NDSize pos = position + count (std::out_of_range when the ranks differ); pos -= 1 *)
-Definition positionAndExtentInData (shape position count : list Z) : res bool :=
-  if negb (zlen position =? zlen count) then Err E_out_of_range
-  else let pos := map (fun x => u64_sub x 1) (nd_add position count) in
-       Ok (positionInData shape pos).
-
-Fixpoint any_gt (a b : list Z) : bool :=
-  match a, b with x :: xs, y :: ys => (x >? y) || any_gt xs ys | _, _ => false end.
+(** the window test of the DataView constructor: offset[i] > extent[i] || count[i] > extent[i] - offset[i] *)
+Fixpoint view_outside (extent offset count : list Z) : bool :=
+  match extent, offset, count with
+  | s :: ss, o :: os, c :: cs => (o >? s) || (c >? u64_sub s o) || view_outside ss os cs
+  | _, _, _ => false
+  end.
 
 (** the DataView constructor *)
 Definition mkDataView (shape count offset : list Z) : res (list Z * list Z) :=
   if negb (zlen offset =? zlen shape) then Err E_Incompatible
   else if negb (zlen count =? zlen shape) then Err E_Incompatible
-  else if any_gt (nd_add offset count) shape then Err E_OutOfBounds
+  else if view_outside shape offset count then Err E_OutOfBounds
   else Ok (offset, count).
 
 Definition checked_view (shape : list Z) (oc : list Z * list Z) : res (list Z * list Z) :=
-  bind (positionAndExtentInData shape (fst oc) (snd oc)) (fun ok =>
-  if negb ok then Err E_OutOfBounds else mkDataView shape (snd oc) (fst oc)).
+  if negb (positionAndExtentInData shape (fst oc) (snd oc)) then Err E_OutOfBounds
+  else mkDataView shape (snd oc) (fst oc).
 
 (** taggedData(const Tag &, const DataArray &, RangeMatch): the view as (offset, count) *)
 Definition taggedData_tag (B : behaviour) (t : tag) (a : darray) (m : RangeMatch) : res (list Z * list Z) :=
@@ -616,8 +623,8 @@ Definition indexed_slice (data : darray) (idx : Z) : res (list Z * list Z) :=
   let shape := a_shape data in
   bind (nd_set (zrepeat 0 (zlen shape)) 0 idx) (fun offset =>
   bind (nd_set shape 0 1) (fun count =>
-  bind (positionAndExtentInData shape offset count) (fun ok =>
-  if negb ok then Err E_OutOfBounds else mkDataView shape count offset))).
+  if negb (positionAndExtentInData shape offset count) then Err E_OutOfBounds
+  else mkDataView shape count offset)).
 
 (** featureData(const MultiTag &, vector<ndsize_t> position_indices, const Feature &, RangeMatch) *)
 Definition featureData_mtag_feat (B : behaviour) (mt : mtag) (indices : list Z) (f : feature) (m : RangeMatch)
